@@ -10,6 +10,7 @@ JSON encodings —
 -/
 import Rpft.Drv.Json
 import Rpft.RowUnparse
+import Rpft.RowSpec
 import Rpft.FlowSchema
 namespace Rpft.Drv
 open Lean Rpft Rpft.Row
@@ -158,6 +159,13 @@ def handleRow (op : String) (j : Json) : Except String Json := do
       | .ok o => resJ valJ (parseRow sch o)
       | .error _ => Json.null
     pure (Json.mkObj [("cells", resJ outJ cells), ("back", back)])
+  | "row.domain" => do
+    -- the decidable domain predicates of Props/C07.lean (mirrored in harness/rowlib.py)
+    let sch ← schemaOfJ (← j.getObjVal? "sch")
+    let lay ← layoutOfJ j
+    let v ← valOfJ sch.top (← j.getObjVal? "v")
+    pure (Json.mkObj [("repr", Json.bool (Representable sch.top v)),
+      ("adm", Json.bool (Admissible sch lay))])
   | "row.match" => do
     let h ← asStrList (← j.getObjVal? "hs")
     let p ← getStr j "prefix"
